@@ -7,6 +7,23 @@ _A_NOTE = ('Trusted: CrossHair 0.0.110 proxy semantics and path pruning, z3 5.1.
            'before a VIOLATION is printed.')
 
 CLAIMS = {
+    'C11': dict(
+        engine='A-crosshair',
+        technique='bounded symbolic execution of the real code (CrossHair + z3) over a generated program family; program arguments unbounded symbolic',
+        text=('For each of 358 generated programs (33 hand-listed bodies covering positional / keyword / *splat / '
+              '**splat arguments, shared locals, list / tuple / dict literals, plain function calls, functools.partial, '
+              'chained partials, arg_factory.partial (also alternating with functools.partial), calls to inlined and '
+              'non-inlined auto_config functions, inlined_partial, exempt, with_tags, lambdas as values and as call '
+              'sites, class methods, re-assignment, tuple unpacking, if / if-expression / for / list and dict '
+              'comprehensions with the control-flow option, defaults, closures whose free variables sort before / '
+              'between / after the injected handler cells, a captured object, staticmethod and classmethod '
+              'decoration; plus 325 combinations of 8 outer constructs x 4 argument styles x 13 inner constructs), '
+              'each called with one, two or three arguments whose int / bool values are unbounded symbolic: '
+              'as_buildable invokes none of the configurable callables, fdl.build of its result yields a graph '
+              'canonically identical (values, types, aliasing; returned callables observed through two calls) to '
+              'fn(*args), and the decorated function called directly behaves like its undecorated twin (same graph, '
+              'same number of constructor invocations).'),
+        note=_A_NOTE + ' The generated module is registered in linecache so that auto_config can read its source. For inlined_partial the returned callable is observed through one call (aliasing across calls differs by design).'),
     'C18': dict(
         engine='B-direct-smt+A-crosshair',
         technique='direct SMT queries (z3 string / regex theory, cvc5 cross-check) over encodings regenerated from the source; solver-enumerated bounded families (CrossHair) for the text pipelines',
